@@ -69,18 +69,19 @@ def iter_items(I, st, itv):
 
 
 def symbolic_seq(I, st, itv):
-    """z3 Seq of the elements iterated, for symbolic iterables (with the typing side condition
-    under which iteration is defined), else None.  -> (seq, cond or None)"""
+    """Symbolic iterable: ('seq', z3 Seq, None) for heap lists/dict keys, ('tuple', term, cond)
+    for symbolic tuple/list *values* (cond: the typing side condition under which iteration is
+    defined), else None."""
     if isinstance(itv, Ref):
         h = st.heap[itv.oid]
         if h.kind == "list":
-            return h.seq, None
+            return ("seq", h.seq, None)
         if h.kind == "dict":
-            return h.keys, None
+            return ("seq", h.keys, None)
         return None
     if isinstance(itv, Sym):
         t = itv.t
-        return vm.tup(t), I.U.has_type(t, ["tuple", "list"])
+        return ("tuple", t, I.U.has_type(t, ["tuple", "list"]))
     return None
 
 
@@ -147,12 +148,12 @@ def _for_over(I, s, st, itv, ctx):
         if isinstance(itv, (Conc, BoolV)):
             return [(st, ("raise", Raise("TypeError")))]
         raise OutOfReach("for over %r" % (itv,))
-    seq, cond = ss
+    skind, seq, cond = ss
     out = []
     if cond is not None:
         for (q, b) in I.branch(st, cond):
             if b:
-                out += _for_symbolic(I, s, q, seq, ctx)
+                out += _for_symbolic(I, s, q, skind, seq, ctx)
             else:
                 # iterating a non-sequence symbolic value: None/numbers raise TypeError; other
                 # iterables (str, dict, set, generators) are outside the value model
@@ -166,7 +167,7 @@ def _for_over(I, s, st, itv, ctx):
                         r.notes.append("iteration over non-sequence iterable: outside value model")
                         out.append((r, ("raise", Raise("$Unmodelled"))))
         return out
-    return _for_symbolic(I, s, st, seq, ctx)
+    return _for_symbolic(I, s, st, skind, seq, ctx)
 
 
 def _for_zip(I, s, st, zargs, ctx):
@@ -187,10 +188,10 @@ def _for_zip(I, s, st, zargs, ctx):
         nxt = []
         for q in live:
             # all symbolic sequences must have more than i items, otherwise zip stops
-            conds = [z3.Length(ss[0]) > i for ss in syms if ss is not None]
+            conds = [(z3.Length(ss[1]) > i) if ss[0] == "seq" else (vm.tlen(ss[1]) > i) for ss in syms if ss is not None]
             for ss in syms:
-                if ss is not None and ss[1] is not None and i == 0:
-                    if not I.valid(q, ss[1]):
+                if ss is not None and ss[2] is not None and i == 0:
+                    if not I.valid(q, ss[2]):
                         raise OutOfReach("zip over symbolic value of unknown type")
             for (r, b) in I.branch(q, z3.And(conds) if conds else True):
                 if not b:
@@ -201,7 +202,7 @@ def _for_zip(I, s, st, zargs, ctx):
                     if k is not None:
                         vals.append(k[i])
                     else:
-                        it = z3.simplify(ss[0][i])
+                        it = z3.simplify(ss[1][i]) if ss[0] == "seq" else vm.titem(ss[1], i)
                         I.U.well_typed(it)
                         vals.append(Sym(it))
                 for (z, oc) in I.assign(s.target, TupV(vals), r, ctx):
@@ -221,45 +222,61 @@ def havoc_vars(I, st, names):
         st.env[n] = Sym(I.U.fresh(n))
 
 
-def instantiate_folds(I, st, pre, x, post, whole):
-    for f in I.U.__dict__.get("folds", {}).values():
-        fn, pred = f
-        px = pred(x)
-        st.pc.append(fn(z3.Empty(vm.SeqV)))
-        st.pc.append(fn(z3.Unit(x)) == px)
-        st.pc.append(fn(z3.Concat(pre, z3.Unit(x))) == z3.And(fn(pre), px))
-        if post is not None:
-            st.pc.append(fn(z3.Concat(pre, z3.Unit(x), post)) == z3.And(fn(pre), px, fn(post)))
-
-
-def _for_symbolic(I, s, st, seq, ctx):
-    """Inductive rule over a symbolic sequence."""
+def _for_symbolic(I, s, st, skind, seq, ctx):
+    """Inductive rule over a symbolic sequence (heap list: Seq split `xs = pre ++ [x] ++ post`;
+    tuple/list value: arbitrary index `0 <= i < len`, `x = item(i)`)."""
+    from .spec import Prefix
     specs = ctx.get("loops") or {}
     qual = ctx.get("qual")
     spec = None
     for (q_, hdr), sp in specs.items():
         if q_ == qual and hdr in ast.unparse(s.iter):
             spec = sp
+    tnames = {n.id for n in ast.walk(s.target) if isinstance(n, ast.Name)}
     mod = set(spec.modifies) if (spec and spec.modifies is not None) else assigned_names(s.body)
-    mod |= assigned_names([ast.Expr(value=s.target)]) | {n.id for n in ast.walk(s.target) if isinstance(n, ast.Name)}
+    mod |= tnames
     inv = spec.inv if spec else None
     obligations = ctx.get("obligations")
     U = I.U
-    out = []
+    folds = list(U.__dict__.get("folds", {}).values())
+    label = (spec.name or spec.header) if spec else ast.unparse(s.iter)
+    if skind == "seq":
+        p_empty = Prefix("seq", seq=z3.Empty(vm.SeqV))
+        p_all = Prefix("seq", seq=seq)
+    else:
+        p_empty = Prefix("tuple", t=seq, n=z3.IntVal(0))
+        p_all = Prefix("tuple", t=seq, n=vm.tlen(seq))
     # (1) invariant on entry
     if inv is not None and obligations is not None:
-        obligations.append(("loop-inv-entry:%s" % (spec.name or spec.header), st.fork(), inv(I, st, z3.Empty(vm.SeqV))))
+        obligations.append(("loop-inv-entry:%s" % label, st.fork(), inv(I, st, p_empty)))
     # (2) arbitrary iteration
     it = st.fork()
     havoc_vars(I, it, mod)
     if spec and spec.heap:
         spec.heap(I, it)
-    pre, post = U.fresh_seq("pre"), U.fresh_seq("post")
     x = U.fresh("elem")
-    it.pc.append(seq == z3.Concat(pre, z3.Unit(x), post))
-    instantiate_folds(I, it, pre, x, post, seq)
+    if skind == "seq":
+        pre, post = U.fresh_seq("pre"), U.fresh_seq("post")
+        it.pc.append(seq == z3.Concat(pre, z3.Unit(x), post))
+        for f in folds:
+            px = f.pred(x)
+            it.pc.append(f.sfn(z3.Unit(x)) == px)
+            it.pc.append(f.sfn(z3.Concat(pre, z3.Unit(x))) == z3.And(f.sfn(pre), px))
+            it.pc.append(f.sfn(z3.Concat(pre, z3.Unit(x), post)) == z3.And(f.sfn(pre), px, f.sfn(post)))
+        p_pre = Prefix("seq", seq=pre)
+        p_next = Prefix("seq", seq=z3.Concat(pre, z3.Unit(x)))
+    else:
+        i = U.fresh_int("idx")
+        it.pc += [i >= 0, i < vm.tlen(seq), x == vm.titem(seq, i)]
+        for f in folds:
+            px = f.pred(x)
+            it.pc.append(f.tfn(seq, 0))
+            it.pc.append(f.tfn(seq, i + 1) == z3.And(f.tfn(seq, i), px))
+            it.pc.append(z3.Implies(f.tfn(seq, vm.tlen(seq)), z3.And(px, f.tfn(seq, i))))   # ∀-elimination at i
+        p_pre = Prefix("tuple", t=seq, n=i)
+        p_next = Prefix("tuple", t=seq, n=i + 1)
     if inv is not None:
-        it.pc.append(inv(I, it, pre))
+        it.pc.append(inv(I, it, p_pre))
     heap_before = {k: dict(h.fields) for k, h in it.heap.items()}
     brk, esc = [], []
     if I.feasible(it):
@@ -274,8 +291,7 @@ def _for_symbolic(I, s, st, seq, ctx):
                 if not (spec and spec.heap):
                     _check_no_heap_write(r, heap_before)
                 if inv is not None and obligations is not None:
-                    obligations.append(("loop-inv-preserved:%s" % (spec.name or spec.header), r.fork(),
-                                        inv(I, r, z3.Concat(pre, z3.Unit(x)))))
+                    obligations.append(("loop-inv-preserved:%s" % label, r.fork(), inv(I, r, p_next)))
         for r in brk:
             if not (spec and spec.heap):
                 _check_no_heap_write(r, heap_before)
@@ -284,12 +300,11 @@ def _for_symbolic(I, s, st, seq, ctx):
                 _check_no_heap_write(r, heap_before)
     # (3) after the loop: all elements processed
     ex = st.fork()
-    havoc_vars(I, ex, mod - {n.id for n in ast.walk(s.target) if isinstance(n, ast.Name)} if False else mod)
+    havoc_vars(I, ex, mod)
     if spec and spec.heap:
         spec.heap(I, ex)
     if inv is not None:
-        ex.pc.append(inv(I, ex, seq))
-    # folds at the whole sequence: nothing to instantiate (uninterpreted fn applied to seq)
+        ex.pc.append(inv(I, ex, p_all))
     return _finish(I, s, [ex] if I.feasible(ex) else [], brk, esc, ctx)
 
 
